@@ -79,6 +79,7 @@ func main() {
 		os.Exit(2)
 	}
 	run := h.NewRun(os.Args[1], p.level)
+	h.StartMemoryGuard(os.Args[1])
 	for i := 2; i < len(os.Args); i++ {
 		if os.Args[i] == "--replay" && i+1 < len(os.Args) {
 			run.Replay = os.Args[i+1]
